@@ -43,6 +43,13 @@ MinV(ty) ==
     [] ty.k = "struct" -> [i \in 1..Len(ty.f) |-> MinV(ty.f[i].t)]
     [] ty.k = "bits" -> Zeros(ty.n)
     [] ty.k \in {"enum", "frame"} -> <<1, MinV(ty.alts[1].t)>>
+    [] ty.k = "ur" -> ty.lo
+    [] ty.k = "pbits" -> Zeros(ty.nb)
+    [] ty.k = "blobm" -> Pat(ty.min, 3)
+    [] ty.k = "seqx" -> [i \in 1..ty.min |-> MinV(ty.of)]
+    [] ty.k = "some" -> <<MinV(ty.of)>>
+    [] ty.k = "none" -> <<>>
+    [] ty.k = "dstruct" -> LET pre == [i \in 1..Len(ty.f) |-> MinV(ty.f[i].t)] IN Append(pre, MinV(DepType(ty, pre)))
 \* a second key, larger than MaxV's, for two-entry dictionaries
 RECURSIVE Max2V(_)
 MaxV(ty) ==
@@ -58,6 +65,14 @@ MaxV(ty) ==
     [] ty.k = "map" -> SortPairs(ty.key, <<<<MaxV(ty.key), MaxV(ty.val)>>, <<Max2V(ty.key), MinV(ty.val)>>>>)
     [] ty.k = "bits" -> [i \in 1..ty.n |-> i % 2]
     [] ty.k \in {"enum", "frame"} -> <<Len(ty.alts), MaxV(ty.alts[Len(ty.alts)].t)>>
+    [] ty.k = "ur" -> ty.hi
+    [] ty.k = "pbits" -> PackBits([x \in 1..ty.n |-> x % 2], ty.nb)
+    [] ty.k = "blobm" -> Pat(Max2(ty.min, 3), 5)
+    [] ty.k = "seqx" -> LET n == IF ty.max >= 0 /\ ty.max < 2 THEN ty.max ELSE Max2(ty.min, 2) IN
+                        [i \in 1..n |-> IF i % 2 = 1 THEN MaxV(ty.of) ELSE MinV(ty.of)]
+    [] ty.k = "some" -> <<MaxV(ty.of)>>
+    [] ty.k = "none" -> <<>>
+    [] ty.k = "dstruct" -> LET pre == [i \in 1..Len(ty.f) |-> MaxV(ty.f[i].t)] IN Append(pre, MaxV(DepType(ty, pre)))
 Max2V(ty) ==
   CASE ty.k \in {"u", "bytes"} -> Pat(ty.n, ty.n + 100)
     [] ty.k = "struct" -> [i \in 1..Len(ty.f) |-> Max2V(ty.f[i].t)]
@@ -94,6 +109,15 @@ Vals(ty) ==
                              \cup (IF ty.w >= 4 THEN {<<5, 0, 1, 0>>, <<5, 0, 0, 1>>} ELSE {})
      [] ty.k = "blob" -> {Pat(127, 1), Pat(128, 2)}
      [] ty.k = "bool" -> {}
+     [] ty.k = "seqx" -> {[i \in 1..Max2(ty.min, 1) |-> MaxV(ty.of)]}
+                         \cup (IF ty.max >= 0 THEN {[i \in 1..ty.max |-> MinV(ty.of)]} ELSE {})
+     [] ty.k = "dstruct" ->
+          \* every one-step variation of the leading fields, each completed with the minimal and the richest
+          \* value of the type the dependent field then has
+          LET P == {MinV(Struct(ty.f)), MaxV(Struct(ty.f))}
+                   \cup {ReplaceAt1(MinV(Struct(ty.f)), j, MaxV(ty.f[j].t)) : j \in 1..Len(ty.f)}
+                   \cup {ReplaceAt1(MaxV(Struct(ty.f)), j, MinV(ty.f[j].t)) : j \in 1..Len(ty.f)} IN
+          UNION {{Append(p, MinV(DepType(ty, p))), Append(p, MaxV(DepType(ty, p)))} : p \in P}
      [] OTHER -> {})
 
 \* ---------------------------------------------------------------- byte-string surgery
@@ -128,6 +152,7 @@ Mutants(ty, v, K) ==
       discs == Pick(OfClass(ms, {"disc"}), K)
       lens == Pick(OfClass(ms, {"len"}), K)
       nats == Pick(OfClass(ms, {"len", "nat"}), K)
+      cnt16 == IF ty.k = "frame" THEN <<>> ELSE Pick(SelectSeq(ms, LAMBDA m : m.c = "flen" /\ m.n = 2), K)   \* 16-bit item counts
   IN
   {Case("valid", b), Case("trail", b \o <<0>>), Case("trail", b \o <<255>>)}
   \cup {Case("trunc_at", Sub(b, 1, m.p)) : m \in SeqSet(every)}
@@ -143,6 +168,8 @@ Mutants(ty, v, K) ==
   \cup UNION {UNION {{Case("att_len2", Splice(Splice(b, m2.p, m2.n, EncNat(a2)), m1.p, m1.n, EncNat(a1)))
                       : a1 \in {LE(Len(b) - (m1.p + m1.n) + 1, 8), U32MAX}, a2 \in {U32MAX, U64MAX}}
                      : m2 \in {m2 \in SeqSet(lens) : m2.p > m1.p}} : m1 \in SeqSet(Pick(lens, 4))}
+  \cup UNION {{Case("len_pm", Splice(b, m.p, 2, LE(n, 2))) : n \in {SmallNat(m.x) + 1, SmallNat(m.x) - 1} \ {-1}} : m \in SeqSet(cnt16)}
+  \cup UNION {{Case("att_len", Splice(b, m.p, 2, a)) : a \in {<<0, 0>>, <<255, 255>>, <<0, 128>>, LE(Min2(65535, Len(b) - (m.p + 2) + 1), 2)}} : m \in SeqSet(cnt16)}
   \cup (IF ty.k = "frame" THEN
           {Case("frame_len", Splice(b, 0, 4, l4)) : l4 \in {LE(0, 4), LE(1, 4), LE(Len(b) - 5, 4), LE(Len(b) - 3, 4), <<255, 255, 255, 255>>}}
           \cup {Case("frame_tag", SetByte(b, 4, t)) : t \in {6, 127, 254}}
